@@ -5,6 +5,7 @@ in Lemmas.lean (parsers, core-only) and Algebra.lean (abstract-group algebra, Ma
 import BV.C11.Lemmas
 import BV.C11.Parsers
 import BV.C11.Algebra
+import BV.C11.MuSig
 import BV.Generated.C11
 namespace BV.C11
 open BV.Secp256k1
@@ -133,21 +134,21 @@ theorem ecdsa_sign_verifies [Fact n.Prime] (xr : G → ZMod n) (g : G) (hg : ∀
     k negated when R has odd y) verifies — for every key d' ≠ 0, message and nonce k' ≠ 0. -/
 theorem schnorr_sign_verifies (c : Coord G F) (H : F → F → M → ZMod n) (g : G)
     (hg : ∀ a : ZMod n, a • g = 0 → a = 0) (d' k' : ZMod n) (hd : d' ≠ 0) (hk : k' ≠ 0) (m : M) :
-    schnorrVerify c H g (c.x (d' • g)) m (c.x (k' • g))
+    Algebra.schnorrVerify c H g (c.x (d' • g)) m (c.x (k' • g))
       (c.sign (k' • g) * k' + H (c.x (k' • g)) (c.x (d' • g)) m * (c.sign (d' • g) * d')) :=
   Algebra.schnorr_sign_verifies c H g hg d' k' hd hk m
 
 /-- BIP340 soundness: the verifier (lift_x, R = s·g − e·P, R ≠ ∞, even y, x(R) = r) accepts only triples
     that satisfy the defining equation. -/
 theorem schnorr_verify_sound (c : Coord G F) (H : F → F → M → ZMod n) (g : G) (pk : F) (m : M) (r : F)
-    (s : ZMod n) (h : schnorrVerify c H g pk m r s) :
+    (s : ZMod n) (h : Algebra.schnorrVerify c H g pk m r s) :
     ∃ P R, c.liftX pk = some P ∧ R ≠ 0 ∧ c.evenY R ∧ c.x R = r ∧ s • g = R + (H r pk m) • P :=
   Algebra.schnorr_verify_sound c H g pk m r s h
 
 /-- BIP340 completeness: every triple satisfying the defining equation is accepted. -/
 theorem schnorr_verify_complete (c : Coord G F) (H : F → F → M → ZMod n) (g : G) (pk : F) (m : M) (r : F)
     (s : ZMod n) (P R : G) (hP : c.liftX pk = some P) (h0 : R ≠ 0) (he : c.evenY R) (hx : c.x R = r)
-    (heq : s • g = R + (H r pk m) • P) : schnorrVerify c H g pk m r s :=
+    (heq : s • g = R + (H r pk m) • P) : Algebra.schnorrVerify c H g pk m r s :=
   Algebra.schnorr_verify_complete c H g pk m r s P R hP h0 he hx heq
 
 /-- BIP327 tweak accumulator invariant for any chain of plain / x-only tweaks: Q = gacc·Q₀ + tacc·g. -/
@@ -169,7 +170,7 @@ theorem musig2_combined_verifies (c : Coord G F) (H : F → F → M → ZMod n) 
     let e := H (c.x R) (c.x ctx.Q) m
     let gR : ZMod n := c.sign R
     let gQ : ZMod n := c.sign ctx.Q
-    schnorrVerify c H g (c.x ctx.Q) m (c.x R)
+    Algebra.schnorrVerify c H g (c.x ctx.Q) m (c.x R)
       ((l.map (fun s => partialSig gR gQ ctx.gacc b e (a (s.d • g)) s)).sum + e * gQ * ctx.tacc) :=
   Algebra.musig2_combined_verifies c H g a l tws b m hQ hR
 
@@ -200,6 +201,13 @@ theorem pin_curveN : Generated.C11.curveN = (n : Int) := by decide
 theorem pin_curveB : Generated.C11.curveB = (curveB : Int) := by decide
 theorem pin_curveGx : Generated.C11.curveGx = (Gx : Int) := by decide
 theorem pin_curveGy : Generated.C11.curveGy = (Gy : Int) := by decide
+/-- every tagged-hash tag used by the models equals the tag compiled into btcd -/
+theorem pin_tags : Generated.C11.tagBIP340Challenge = tagChallenge ∧ Generated.C11.tagChallenge = tagChallenge ∧
+    Generated.C11.tagBIP340Aux = tagAux ∧ Generated.C11.tagBIP340Nonce = tagNonce ∧
+    Generated.C11.tagTapTweak = tagTapTweak ∧ Generated.C11.tagKeyAggList = tagKeyAggList ∧
+    Generated.C11.tagKeyAggCoeff = tagKeyAggCoeff ∧ Generated.C11.tagNonceAux = tagMusigAux ∧
+    Generated.C11.tagNonceGen = tagMusigNonce ∧ Generated.C11.tagNonceBlind = tagNonceCoef :=
+  ⟨rfl, rfl, rfl, rfl, rfl, rfl, rfl, rfl, rfl, rfl⟩
 theorem pin_sizes : Generated.C11.schnorrSignatureSize = 64 ∧ Generated.C11.schnorrPubKeyBytesLen = 32 ∧
     Generated.C11.pubKeyBytesLenCompressed = 33 ∧ Generated.C11.privKeyBytesLen = 32 ∧
     Generated.C11.musigPubNonceSize = 66 ∧ Generated.C11.musigSecNonceSize = 97 ∧
